@@ -54,7 +54,8 @@ theorem residue_grows (sch : Sch) (m : Mode) (r : Res) (doc : List Step)
     elements, collecting fields and lazy counter rebuilding leave the schema object untouched -/
 theorem residue_frame (sch : Sch) (m : Mode) (s : Res × Ctx) (x : Step)
     (h : match x with
-      | .xsiType _ _ _ => False | .memoCall _ => False | .scratchUse _ => False | .wild _ _ _ => False | _ => True) :
+      | .xsiType _ _ _ => False | .memoCall _ => False | .scratchUse _ => False | .wild _ _ _ => False
+      | .nsRead _ => False | _ => True) :
     (step sch m s x).1.1 = s.1 := by
   cases x <;> first | rfl | exact absurd h id
 
